@@ -211,9 +211,10 @@ class Case:
 
 
 def build_case(m, n, kind, n_in, n_out, has_change=True, change_pos=None, with_xpubs=False, segwit_flag=False,
-               id_offset=0, reuse_address=False, idx_base=0):
+               id_offset=0, reuse_address=False, idx_base=0, same_dest=False):
     """honest PSBT of the wallet (cosigners id_offset..id_offset+n-1): created, then updated.
-    idx_base: first address index used (inputs at 0/idx_base+j, change at 1/idx_base)"""
+    idx_base: first address index used (inputs at 0/idx_base+j, change at 1/idx_base);
+    same_dest: every payment output goes to the SAME address (amounts differ)"""
     c = Case()
     ids = list(range(id_offset, id_offset + n))
     c.m, c.n, c.kind, c.ids, c.n_in, c.n_out, c.has_change = m, n, kind, ids, n_in, n_out, has_change
@@ -238,7 +239,7 @@ def build_case(m, n, kind, n_in, n_out, has_change=True, change_pos=None, with_x
         tx_ins.append(TxIn(prev.hash(), j % 2))
         total += amount
         c.funding.append(prev)
-    outs = [TxOut(10000 + 100 * j, _foreign_spk(j)) for j in range(n_out - (1 if has_change else 0))]
+    outs = [TxOut(10000 + 100 * j, _foreign_spk(0 if same_dest else j)) for j in range(n_out - (1 if has_change else 0))]
     c.change_index = None
     if has_change:
         nm, red, wit, spk = wallet_script(kind, m, ids, 1, idx_base)
@@ -1126,6 +1127,13 @@ def job_describe(kind, ns, ms=None, quick_skip=False):
             for tid, s2 in tamper_catalogue(case, st):
                 raw2 = S.psbt_ser(s2)
                 judge(rec, "C11.tamper." + tid, raw2, s2, case.wallet, hmap, {"case": case.label, "tamper": tid, "honest": b64(case.updated)})
+            if idx % 2 == 0 or tier == "thorough":
+                # several payments to ONE address (added after seeded change C11-D: spend amounts keyed by address):
+                # the summary must still account for every output
+                cd = build_case(m, nn, k, 1, 3, change_pos=idx + seed, id_offset=seed % 3, same_dest=True)
+                judge(rec, "C11.honest-repeated-destination", cd.updated, S.psbt_parse(cd.updated), cd.wallet, hmap, {"case": cd.label + " same-dest"}, honest=True)
+                cd0 = build_case(m, nn, k, 1, 2, has_change=False, id_offset=seed % 3, same_dest=True)
+                judge(rec, "C11.honest-repeated-destination-nochange", cd0.updated, S.psbt_parse(cd0.updated), cd0.wallet, hmap, {"case": cd0.label + " same-dest"}, honest=True)
             if case.change_index is not None and (idx % 2 == 0 or tier == "thorough"):
                 history_foreign_wallet(rec, case, st, hmap, m, nn, k, a, b, idx + seed, seed % 3)
         return rec.result()
